@@ -8,6 +8,10 @@ NOTE = ("Trusted: go/ssa translation (x/tools v0.29.0), the engine's SSA semanti
         "Claim is bounded: every input inside the per-harness bounds recorded in the evidence; nothing outside them. ")
 
 claimed = {
+ "C02": dict(text="Bounded model checking of the three signature-hash algorithms against reference preimages written from the original algorithm, BIP143 and BIP341/342: for every transaction "
+                  "inside the shape bound with all field values, hash types, input index, script code, amounts, annex / leaf hash / code-separator position symbolic, the digest equals the reference "
+                  "(hashes are ghost byte streams compared under an injectivity assumption); cache-order independence; no digest where the BIPs define none.",
+             ref="6/C02", note=NOTE + "H-inj: SHA-256 treated as injective on the streams hashed along a path. ref_bip341 has no external vectors in this tree. "),
  "C18": dict(text="Bounded model checking of the peer-message handlers' parse/validate prefixes (version, inv, getdata, headers, getheaders/getblocks locators, getblocktxn, cmpctblock) on every payload up to the "
                   "per-handler length from an arbitrary connection status: no escaping panic, no lock of the handler's lock set held at return, work proportional to the payload.",
              ref="6/C18", note=NOTE + "Senders, counters and deep callees (ProcessNewHeader, block store, mempool effects) are stubs with arbitrary results; listed per harness in the evidence. "),
@@ -24,7 +28,6 @@ claimed = {
 }
 
 na = {
- "C02": "not yet built in this revision (planned: DESIGN.md 6/C02)",
  "C03": "not yet built in this revision (planned: DESIGN.md 6/C03)",
  "C04": "not yet built in this revision (planned: DESIGN.md 6/C04)",
  "C05": "not yet built in this revision (planned: DESIGN.md 6/C05)",
